@@ -93,10 +93,11 @@ func (c *FCtx) numberSites(fi *FuncInfo) {
 		}
 		for _, o := range c.stmtOrd {
 			have["before "+o] = true
+			have["after "+o] = true
 		}
 		for i, at := range c.Contract.Ats {
 			w := at.Where
-			if strings.HasPrefix(w, "before stmt ") && !strings.Contains(w[strings.LastIndex(w, " ")+1:], "#") && !have[w] {
+			if (strings.HasPrefix(w, "before stmt ") || strings.HasPrefix(w, "after stmt ")) && !strings.Contains(w[strings.LastIndex(w, " ")+1:], "#") && !have[w] {
 				w += "#1"
 				c.Contract.Ats[i].Where = w
 			}
@@ -195,8 +196,15 @@ func (w *World) verifyFuncMode(fi *FuncInfo, ct *Contract, defaultSafety bool, p
 	}()
 	c.computeRenames(fi)
 	c.numberSites(fi)
+	// a vanished anchor is reported (its clauses cannot be checked), the rest of the contract is still verified
+	badMsg := ""
 	if len(c.badAnchors) > 0 {
-		panic(outOfReach(fmt.Sprintf("contract anchor not found in the function: at %s", strings.Join(c.badAnchors, "; at "))))
+		badMsg = fmt.Sprintf("contract anchor not found in the function: at %s", strings.Join(c.badAnchors, "; at "))
+		defer func() {
+			if res != nil && res.OutOfReach == "" {
+				res.OutOfReach = badMsg
+			}
+		}()
 	}
 	sig := fi.Obj.Type().(*types.Signature)
 	e := c.newEnv(fi.Pkg, sig, fi.Decl.Body, true, fi.Key)
